@@ -272,6 +272,16 @@ impl CoreProbe {
         self.io.as_ref().unwrap().inner.are_writes_sealed()
     }
 
+    /// buffered_writes_high_water, as handle_steady_event hands it to handle_channel_readable
+    pub fn set_high_water(&mut self, high: usize) {
+        self.io.as_mut().unwrap().buffered_writes_high_water = high;
+    }
+
+    /// channels_need_repoll
+    pub fn need_repoll(&self) -> bool {
+        self.io.as_ref().unwrap().inner.channels_need_repoll
+    }
+
     pub fn slot_ids(&self) -> Vec<u16> {
         let mut v: Vec<u16> = self
             .io
